@@ -8,6 +8,7 @@ from .. import dref
 from .. import impl
 from .. import explore
 from .. import modular as M
+from .. import kinds
 from . import c02, c04, c05
 
 ID = 'C09'
@@ -75,6 +76,93 @@ def const_cases():
     ]
 
 
+# --- declared constants as interval bounds, with and without units: the constant form against the same text with the value written out
+# (both sides are the real implementation; what the literal form means is the business of C08)
+CU_TEMPLATES = (('{a}', '3s', {'a': 1}), ('{a}', '3', {'a': 1}), ('{a} s', '3s', {'a': 1}), ('0', '{a}', {'a': 2}), ('1s', '{a}', {'a': 3}),
+                ('{a}', '2000ms', {'a': 1000}), ('{a} ms', '3s', {'a': 1000}), ('1', '{a} s', {'a': 3}), ('{a}', '{b}', {'a': 1, 'b': 2}),
+                ('{a}', '{b} s', {'a': 1, 'b': 2}), ('{a} ms', '{b}', {'a': 1000, 'b': 2000}), ('0', '{a} ms', {'a': 2000}))
+CU_OPS = (('once', 1), ('historically', 1), ('eventually', 1), ('always', 1), ('since', 2), ('until', 2))
+CU_CONFIGS = (('s', (1, 's'), 1.0), ('ms', (1000, 'ms'), 1000.0), ('ms', (500, 'ms'), 500.0), (None, None, 1.0))
+CU_KINDS = ('dt_off', 'dt_on', 'ct_off', 'ct_on')
+
+
+def const_unit_cases():
+    out = []
+    for op, ar in CU_OPS:
+        for ti in range(len(CU_TEMPLATES)):
+            for ci in range(len(CU_CONFIGS)):
+                out.append((op, ar, ti, ci))
+    return out
+
+
+def cu_texts(op, ar, ti):
+    b, e, vals = CU_TEMPLATES[ti]
+    names = {k: 'k' + k for k in vals}
+    operands = '(x >= 0)' if ar == 1 else None
+    def text(sub):
+        I = '[%s:%s]' % (b.format(**sub), e.format(**sub))
+        return 'out = %s%s %s' % (op, I, operands) if ar == 1 else 'out = (x >= 0) %s%s (y >= 0)' % (op, I)
+    consts = [(names[k], 'int', str(v)) for k, v in sorted(vals.items())]
+    return text(names), text({k: str(v) for k, v in vals.items()}), consts
+
+
+def cu_run(kind, text, consts, cfg, w):
+    """('ok', comparable output) | ('err', message)"""
+    unit, period, dt = CU_CONFIGS[cfg]
+    vs = sorted(w)
+    future = any(k in text for k in ('eventually', 'always', 'until'))
+    online = kind in ('dt_on', 'ct_on')
+    try:
+        spec = impl.build(kind, text, vs, consts=consts, unit=unit, period=period if kind.startswith('dt') else None,
+                          pastify=online and future)
+    except Exception as e:
+        return ('err', '%s: %s' % (type(e).__name__, str(e)[:80]))
+    n = len(w[vs[0]])
+    if kind.startswith('dt'):
+        return impl.outcome(kinds.dt_values, kind, spec, w, [i * dt for i in range(n)])
+    k, v = impl.outcome(kinds.ct_samples, kind, spec, kinds.grid_signal(w, dt))
+    return (k, [list(q) for q in v] if k == 'ok' else v)
+
+
+def cu_check(case):
+    ctext, ltext, consts = cu_texts(case['op'], case['arity'], case['template'])
+    a = cu_run(case['kind'], ctext, [tuple(c) for c in consts], case['config'], case['trace'])
+    b = cu_run(case['kind'], ltext, (), case['config'], case['trace'])
+    if a[0] != b[0]:
+        return 'with constants %r: %s %s; with the values written out %r: %s %s' % (ctext, a[0], str(a[1])[:160], ltext, b[0], str(b[1])[:160]), a, b
+    if a[0] == 'ok' and explore.snapshot(a[1]) != explore.snapshot(b[1]):
+        return 'with constants %r the result is %s, with the values written out %r it is %s' % (ctext, str(a[1])[:200], ltext, str(b[1])[:200]), a, b
+    return None, a, b
+
+
+def run_const_units(res, mod, idx, tier):
+    op, ar, ti, ci = const_unit_cases()[idx]
+    n = 5 if ar == 1 else 3
+    for kind in CU_KINDS:
+        if kind.startswith('ct') and ('prev' in op):
+            continue
+        if kind == 'ct_on' and op == 'until':
+            continue     # the rewriting of until is not supported by the dense online monitor
+        for tr in F.traces(n, F.V2, ar, minlen=n):
+            w = F.trace_dict(tr, ['x', 'y'][:ar])
+            case = {'kind': 'const_units', 'op': op, 'arity': ar, 'template': ti, 'config': ci, 'trace': w, 'formula': None}
+            case['kind'] = kind
+            case['group'] = 'const_units'
+            res.evaluations += 1
+            msg, a, b = cu_check(case)
+            if msg:
+                res.violation(mod, case, msg)
+                res.outcomes['constant bound differs from literal'] += 1
+                break
+            res.outcomes['both accept' if a[0] == 'ok' else 'both reject'] += 1
+            if a[0] == 'ok':
+                res.nontrivial += 1
+            else:
+                break   # the rejection does not depend on the trace
+        res.digest(op, ti, ci, kind)
+    res.flags['const_unit_specs'] += 1
+
+
 def _sbound(I):
     return '[%s,%s]' % tuple(x if isinstance(x, str) else F.fnum(x) for x in I)
 
@@ -123,6 +211,8 @@ def shards(tier):
         for vi in range(n):
             out.append({'f': F.to_json(f), 'future': False, 'vi': vi, 'arith': True})
     out.append({'consts': True})
+    n = len(const_unit_cases())
+    out += [{'const_units': list(range(i, min(i + 12, n)))} for i in range(0, n, 12)]
     return out
 
 
@@ -228,6 +318,10 @@ def online_ct(res, mod, f, subs, text, tier):
 
 def run_shard(shard, tier, res):
     mod = sys.modules[__name__]
+    if 'const_units' in shard:
+        for idx in shard['const_units']:
+            run_const_units(res, mod, idx, tier)
+        return
     if shard.get('consts'):
         for g, consts, f, tag in const_cases():
             text = 'out = ' + F.pr(g, _sbound)
@@ -276,6 +370,9 @@ def run_shard(shard, tier, res):
 
 
 def replay(case):
+    if case.get('group') == 'const_units':
+        m = cu_check(case)[0]
+        return [m] if m else []
     f = F.from_json(case['formula'])
     kind = case.get('kind', 'dt_on')
     if kind == 'dt_on':
@@ -311,4 +408,4 @@ def finalize(agg, outcomes, flags, tier):
     from ..runner import Broken
     if agg['nontrivial'] < 1000:
         raise Broken('vacuous: only %d checked cases' % agg['nontrivial'])
-    return {'presentations': agg['formulas'], 'const_specs': flags.get('const_specs', 0)}
+    return {'presentations': agg['formulas'], 'const_specs': flags.get('const_specs', 0), 'const_unit_specs': flags.get('const_unit_specs', 0)}
